@@ -414,6 +414,11 @@ SMARTS = ['[C;D1]-[C;!R]=O', '[#6]-[#8]', '[O,N;D1]', 'c:c', '[C;D3](=O)[O;D1]',
           # primitives on the any-element atom A and on element lists (their __eq__ are separate code)
           '[A;h1]', '[A;h1,h2]C', '[A;h0]', '[A;h1]C', '[A;D3]', '[A;x1]-[A]', '[A;z2]=[A]', '[A;h2]-[A;h0]', '[C,N;h1]', '[C,N,O;h0]', '[A;r6]',
           '[A;D1;h3]-[A;h0]', '[A;h3]-[A;h1,h2]', '[O,S;h1]-[A;h0]', '[A;!R;D2]', '[C,N;D3]-[A;x0]']
+# element lists whose symbols contain / are contained in the symbols of OTHER elements (Cl-C, Br-B, Si-S-I, Na-N, Se-S, Sn-S-N ...) and
+# targets holding those other elements in positions compatible with the rest of the query: every list query x every target, in the
+# correspondence (reference path), the brute-force search (reference and default path) and the RDKit comparison
+LIST_SMARTS = ['[Cl,Br]-[#6]', '[Si,P]-[#6]', '[Br,I]', '[Cl,F]-[#6]', '[Se,Sn]', '[Na,K]', '[Si,Se;D2]', '[#6]-[Cl,Br,I]']
+HETERO_TARGETS = ['ClCCBr', 'OB(O)CCBr', 'C[Si](C)(C)CSC', 'FC(Cl)CN', 'C[Se]CSN', 'CCO', 'IC(Br)CP']
 # the part of the SMARTS language that chython and RDKit read identically on neutral, isotope-free, radical-free targets whose aromatic
 # bonds both toolkits agree on: atomic numbers, lists of them, degree, bond orders - = # :, ring marks @ !@ on bonds
 RDKIT_SMARTS = ['[#6]-;!@[#6]', '[#6]-;@[#6]', '[#6]=;!@[#6]', '[#6]=;@[#6]', '[#6]-,=;!@[#8]', '[#6]-;@[#8]', '[#6]=[#8]', '[#6]-[#8]', '[#6]#[#7]',
@@ -591,12 +596,13 @@ def corr_smarts(ck, cs):
         if any(getattr(a, 'stereo', None) is not None for a in q._atoms.values()):
             continue
         qs.append((s, q))
-    for t in pool:
+    lq = [(s, smarts(s)) for s in LIST_SMARTS]
+    for t, fixed in [(t, None) for t in pool] + [(smiles(x), lq) for x in HETERO_TARGETS]:
         tb_id = {}
         for n, ms in t._bonds.items():
             for m in ms:
                 tb_id.setdefault(frozenset((n, m)), len(tb_id) + 1)
-        for s, q in rng.sample(qs, 6):
+        for s, q in fixed or rng.sample(qs, 6):
             qb_id = {}
             for n, ms in q._bonds.items():
                 for m in ms:
@@ -622,6 +628,8 @@ def corr_smarts(ck, cs):
                    f'(Ok {maps_term(got)})', ('QueryContainer.get_mapping(_cython=False)', s, str(t), flt, scope))
             ck.case(('smarts', s, str(t), flt, None if scope is None else tuple(sorted(scope))), nontrivial=bool(got))
             ck.count(f'smarts:pcomps={min(len(q._compiled_query[0]), 3)}:{"hit" if got else "miss"}')
+            if fixed:
+                ck.count(f'smarts:element-list-query:{"hit" if got else "miss"}')
 
 
 POLY_TARGETS = ['C1C23C(C12)C3', 'C12C3C4C1C5C2C3C45', 'C1CC2CC12', 'C12CC1C2', 'C1CC2CCC1C2', 'C1C2CC3CC1CC(C2)C3', 'C12C3C1C23', 'c1ccc2ccccc2c1',
@@ -1035,6 +1043,20 @@ def own_atom_attrs(t, n):
     return nb, het, hyb
 
 
+# own periodic table (symbol -> atomic number = position + 1); typed in, NOT read from the library, so that the element of a query atom /
+# the members of an element list are decided from the symbols the query was written with
+OWN_SYMBOLS = ('H He Li Be B C N O F Ne Na Mg Al Si P S Cl Ar K Ca Sc Ti V Cr Mn Fe Co Ni Cu Zn Ga Ge As Se Br Kr Rb Sr Y Zr Nb Mo Tc Ru Rh Pd '
+               'Ag Cd In Sn Sb Te I Xe Cs Ba La Ce Pr Nd Pm Sm Eu Gd Tb Dy Ho Er Tm Yb Lu Hf Ta W Re Os Ir Pt Au Hg Tl Pb Bi Po At Rn Fr Ra '
+               'Ac Th Pa U Np Pu Am Cm Bk Cf Es Fm Md No Lr Rf Db Sg Bh Hs Mt Ds Rg Cn Nh Fl Mc Lv Ts Og').split()
+OWN_NUMBER = {x: i + 1 for i, x in enumerate(OWN_SYMBOLS)}
+
+
+def own_list_numbers(qa):
+    """atomic numbers an element-list query atom stands for: the symbols it was built from (qa._elements, the constructor's stored input)
+    through the own table; never the library's derived atomic_numbers / atomic_symbol"""
+    return {OWN_NUMBER[x] for x in qa._elements}
+
+
 def own_atom_match(qa, t, n):
     """does the pattern atom match target atom n?  True / False, or None when this evaluator does not decide (then the library's
     own comparison is used for this one pair).  Never calls __eq__ of the library."""
@@ -1053,7 +1075,7 @@ def own_atom_match(qa, t, n):
         if qa.isotope and qa.isotope != ta.isotope:
             return False
     elif isinstance(qa, ListElement):
-        if ta.atomic_number not in set(qa.atomic_numbers):
+        if ta.atomic_number not in own_list_numbers(qa):
             return False
     if qa.charge != ta.charge or bool(qa.is_radical) != bool(ta.is_radical):
         return False
@@ -1153,12 +1175,13 @@ def own_or_lib_bond(qb, t, n, m):
     return bool(qb == t._bonds[n][m]) if r is None else r
 
 
-PRIM_KINDS = ['A', 'C', 'N', 'O', 'C,N', 'O,S', 'C,N,O', 'F,Cl,Br']
+PRIM_KINDS = ['A', 'C', 'N', 'O', 'C,N', 'O,S', 'C,N,O', 'F,Cl,Br', 'Cl,Br', 'Si,P']
 PRIM_ATOM = ['h0', 'h1', 'h2', 'h3', 'h1,h2', 'h0,h3', 'D1', 'D2', 'D3', 'D4', 'D1,D2', 'x0', 'x1', 'x2', 'x1,x2', 'z1', 'z2', 'z3', 'z4', 'z1,z2',
              'r3', 'r5', 'r6', 'r5,r6', '!R', '+', '-', 'D2;h0', 'D1;h3', 'h0;x1', 'z2;h0', 'D3;!R']
 PRIM_BOND = ['-', '=', '#', ':', '~', '-,=', '=,#', '-;@', '-;!@', '=;@', '=;!@', ':;@', '-,=;!@', '~;@', '~;!@']
 PRIM_TARGETS = ['CC(C)(C)C', 'COC(=O)NC', 'CC(=O)O', 'c1ccccc1O', 'C1CC1C(=O)N', 'OCC(O)CO', 'C#CC=C', 'CC(=O)[O-].[NH4+]', 'C[N+](C)(C)C', 'c1ccncc1C', 'C1CCCCC1C',
-                'CS(C)=O', 'FC(F)(F)CCl', 'C1CC2CC12', 'O=C=O', 'CC(C)=C(C)C', 'c1ccc2ccccc2c1', 'C1=CCCC1C=C', 'OC1CCOC1', 'N#CC1CCC1', 'C[O-].[Na+]', 'CN(C)C', 'COC']
+                'CS(C)=O', 'FC(F)(F)CCl', 'C1CC2CC12', 'O=C=O', 'CC(C)=C(C)C', 'c1ccc2ccccc2c1', 'C1=CCCC1C=C', 'OC1CCOC1', 'N#CC1CCC1', 'C[O-].[Na+]', 'CN(C)C', 'COC',
+                'OB(O)CCBr', 'C[Si](C)(C)CSC', 'ClCC(Br)CS']
 
 
 def search_primitive_grid(ck):
@@ -1506,7 +1529,7 @@ def search_rdkit(ck, targets):
         ck.count('search:rdkit:unavailable')
         return
     qs = []
-    for s in RDKIT_SMARTS:
+    for s in RDKIT_SMARTS + LIST_SMARTS:
         try:
             q, rq = smarts(s), Chem.MolFromSmarts(s)
         except Exception:  # noqa
@@ -1694,13 +1717,14 @@ def search_accelerated(ck):
     rng = random.Random(f'{ck.seed}:search-accel')
     qs = [(x, smarts(x)) for x in RING_QUERIES + ['[#6]-;@[#6]', '[#6]-;!@[#6]', 'C1CC1CC', '[A;h0]1[A][A]1', 'CC', '[A][A]([A])[A]']]
     targets = [(x, smiles(x)) for x in POLY_TARGETS]
+    lists = [(smarts(s), smiles(x), s, x) for s in LIST_SMARTS for x in HETERO_TARGETS]     # the bit-mask compiler reads the list's atomic numbers too
     pool = [m for m in mol_pool(ck, 30 if ck.tier == 'quick' else 300, 24, 'c07-accel') if len(m.sssr) >= 2][:10 if ck.tier == 'quick' else 100]
     targets += [(str(m), m) for m in pool]
     pre = 'import iso_pyx; iso_pyx.inject(); from chython import smiles, smarts; '
-    for ttxt, t in targets:
-        if any(a.implicit_hydrogens is None for a in t._atoms.values()):
+    for ttxt0, t0 in targets + [(None, None)]:
+        if ttxt0 is not None and any(a.implicit_hydrogens is None for a in t0._atoms.values()):
             continue                                        # the library itself takes the reference path for such molecules
-        for s_, q in qs:
+        for s_, q, ttxt, t in ([(s_, q, ttxt0, t0) for s_, q in qs] if ttxt0 is not None else [(s, q, x, t) for q, t, s, x in lists]):
             ref = brute(q, t)
             refset = {key_of(m) for m in ref}
             ck.case(('search-accel', s_, ttxt), nontrivial=bool(ref))
@@ -1948,6 +1972,10 @@ def search(ck):
                 nhit, nmiss = (nhit - 1, nmiss) if hit else (nhit, nmiss - 1)
                 search_pair(ck, q, t, rng, s, ttxt, query=True)
                 npairs += 1
+    for ttxt in HETERO_TARGETS:
+        for s in LIST_SMARTS:
+            search_pair(ck, smarts(s), smiles(ttxt), rng, s, ttxt, query=True)
+            npairs += 1
     search_int(ck, 250 if ck.tier == 'quick' else 4000)
     search_lazy_product(ck, 200 if ck.tier == 'quick' else 3000)
     search_automorphism(ck, [('C.C', smiles('C.C'))] + targets)
@@ -1956,7 +1984,7 @@ def search(ck):
     search_stereo(ck)
     search_match_stereo(ck)
     search_self_text(ck)
-    search_rdkit(ck, [(x, smiles(x)) for x in RDKIT_TARGETS] + [(x, m) for x, m in targets if '.' not in x])
+    search_rdkit(ck, [(x, smiles(x)) for x in RDKIT_TARGETS + HETERO_TARGETS] + [(x, m) for x, m in targets if '.' not in x])
     ck.extra['search_pairs'] = npairs
 
 
